@@ -212,9 +212,7 @@ def cfg2dftaRaw (G : PS.G.CFG) : DFTA PS.G.Sym BaseSt :=
 def cfg2dfta (G : PS.G.CFG) : DFTA PS.G.Sym BaseSt := reduce (cfg2dftaRaw G)
 
 /-- a base automaton seen as an automaton over extensible states (no component added yet) -/
-def liftBase (B : DFTA σ Q) : DFTA σ (St Q) :=
-  { rules := B.rules.map (fun r => ((r.1.1, r.1.2.map (fun q => (q, []))), (r.2, []))),
-    finals := B.finals.map (fun q => (q, [])) }
+def liftBase (B : DFTA σ Q) : DFTA σ (St Q) := mapStates (fun q => (q, [])) B
 
 /-! ### `add_dfta_constraints` (:290-358) -/
 
